@@ -34,10 +34,11 @@ dst=/verif/seeded/$id-$name
 mkdir -p $dst
 cp $sd/patch.diff $sd/demo.rs $dst/
 [ -f $sd/meta.txt ] && cp $sd/meta.txt $dst/
-python3 - "$id" "$name" "$chk" "$tier" "$code" "$a" "$b" "$c" "$d" "$dst" <<PY
+echo "$out" | grep -E "^(VIOLATION|MACHINERY|  key=)" | cut -c1-500 > /tmp/seedrun/out.txt
+python3 - "$id" "$name" "$chk" "$tier" "$code" "$a" "$b" "$c" "$d" "$dst" <<'PY' 
 import sys, json, re, os
 id, name, chk, tier, code, a, b, c, d, dst = sys.argv[1:]
-out = """$(echo "$out" | grep -E "^(VIOLATION|MACHINERY|  key=)" | cut -c1-500 | sed 's/\\/\\\\/g; s/"""/'"'"''"'"''"'"'/g')"""
+out = open("/tmp/seedrun/out.txt").read()
 keys = re.findall(r"key=(\S+) cases=(\d+)", out)
 mp = os.path.join(dst, 'meta.json')
 m = json.load(open(mp)) if os.path.exists(mp) else {}
